@@ -562,7 +562,7 @@ def _cli_layer(case, d, log, viol, probe):
 
     if c.get('prior') == 'trial-run':
         # same output mode as the real run (a run with another layout legitimately leaves its own files behind)
-        launch(['demux.py'] + files + ['-o', out, '--y', '-use', p['strategy'], '-hd', str(p['hd']), '-n', '2', '-fh', str(c['fh'])] + (['--se'] if nm == 1 else [])
+        launch(['demux.py'] + files + ['-o', out, '--y', '-use', p['strategy'], '-hd', str(p['hd']), '-n', '1', '-fh', str(c['fh'])] + (['--se'] if nm == 1 else [])
                + (['--norejects'] if c['norejects'] else []) + (['--scsepf'] if c['scsepf'] else []))
         probe('cli_rerun_into_existing_output')
     elif c.get('prior') == 'empty-folder':
